@@ -53,6 +53,24 @@ theorem C09_pinned_violates :
     (fmtBlock repaired (some r) [s2]).map (·.stripped) = [true] := by
   decide
 
+/-- **blank lines above a statement**: only the first statement of a block has its leading blank lines
+removed, and only when it is itself formatted; every later statement - in particular the first
+statement *of the range* - keeps (one of) them, as whole-file formatting would -/
+theorem C09_only_first_stripped (r : Option Range) (d : Bool) (ss : List Stmt) :
+    ∀ o ∈ fmtStmts repaired r d false ss, o.stripped = false := by
+  induction ss generalizing d with
+  | nil => intro o ho; simp [fmtStmts] at ho
+  | cons s rest ih =>
+    intro o ho
+    simp only [fmtStmts, List.mem_cons] at ho
+    rcases ho with h | h
+    · subst h; simp [outOf, repaired]
+    · exact ih _ o h
+
+theorem C09_first_stripped_iff (r : Option Range) (s : Stmt) (rest : List Stmt) :
+    ((fmtBlock repaired r (s :: rest)).head?.map (·.stripped)) = some (decide (decide1 (toggle false s.lines) r s = .normal)) := by
+  simp [fmtBlock, fmtStmts, outOf, repaired]
+
 /-! ## non-vacuity -/
 example :
     let s1 : Stmt := { id := 0, kind := .call, startsParen := false, semi := true, lines := [], start := 0, stop := 10 }
